@@ -301,6 +301,14 @@ where
                                     program.row().isa = from_row.isa();
                                     program.generate_row();
                                 }
+                            } else if from_row.end_sequence() && program.in_sequence() {
+                                // The sequence ends in code that is not emitted (e.g. its last
+                                // function was removed by the GC pass), so the address of its end
+                                // cannot be resolved. Close it at the last row that was kept, or
+                                // the next sequence could not begin.
+                                let address_offset = program.row().address_offset;
+                                program.end_sequence(address_offset);
+                                from_base_address = from_row_address;
                             }
                         }
 
